@@ -45,7 +45,7 @@ public:
    enum StepResult {STEP_SKIPPED=0,   // the named thread was not enabled (finished, or blocked): nothing happened
                     STEP_RAN};        // the thread ran from its park point to its next park point (or to its end)
 
-   CoopScheduler() : _abort(false), _expectedNew(0), _allWC(false), _running(0), _userEvent(NULL)
+   CoopScheduler() : _abort(false), _expectedNew(0), _allWC(false), _allThreads(false), _allAtomic(false), _running(0), _userEvent(NULL)
    {
       for (int i=0; i<MUSCLE_NUM_VH_KINDS; i++) _parkPolicy[i] = false;
       // hooks where a thread can block, or whose outcome depends on the interleaving, are park points by default
@@ -77,6 +77,13 @@ public:
    /** If true, every WaitCondition touched by a managed thread is model-relevant (for wait conditions that live in pools). */
    void setAllWaitConditionsRelevant(bool b) {_allWC = b;}
 
+   /** If true, the THREAD_JOIN / SIG_SEND / SIG_WAIT / SIG_DRAIN hooks of EVERY muscle Thread object are model-relevant
+     * (for Thread objects that the code under test creates itself, e.g. the pool threads of a ThreadPool). */
+   void setAllThreadsRelevant(bool b) {_allThreads = b;}
+   /** If true, every AtomicCounter incremented/decremented by a managed thread is model-relevant (for reference counts of
+     * objects that are created while the run is in progress, C10). */
+   void setAllAtomicCountersRelevant(bool b) {_allAtomic = b;}
+
    /** Makes hook kind (MUSCLE_VH_*) a park point (true) or pure bookkeeping (false), for relevant objects. */
    void setParkPolicy(int vhKind, bool park) {if ((vhKind > 0)&&(vhKind < MUSCLE_NUM_VH_KINDS)) _parkPolicy[vhKind] = park;}
 
@@ -89,6 +96,7 @@ public:
    void reset()
    {
       std::lock_guard<std::mutex> g(_m);
+      for (size_t i=0; i<_threads.size(); i++) if ((_threads[i].own)&&(_threads[i].state == ST_FINISHED)) {sem_destroy(&_threads[i].own->jobSem); sem_destroy(&_threads[i].own->runSem); delete _threads[i].own;}   // adopted threads that have ended
       _threads.clear(); _relevant.clear(); _ranges.clear(); _owners.clear(); _pending.clear(); _sig.clear(); _sigClosed.clear(); _finishedObjs.clear();
       _abort = false; _expectedNew = 0; _running = 0; _trace.clear();
       for (size_t i=0; i<_spent.size(); i++) _idle.push_back(_spent[i]);
@@ -202,20 +210,41 @@ public:
      * thread is parked on a mutex that another thread owns (cannot be unwound; the harness should _exit). */
    bool abortAll()
    {
+      if (beginAbort() == false) return false;
+      waitAllFinished();
+      return true;
+   }
+
+   /** First half of abortAll(): releases every parked thread (later hooks pass through, parked waits return "timed out")
+     * and returns at once, so that the controller can do what the released threads need in order to finish (e.g. destroy
+     * the object whose internal threads are polling for their quit Message).  Follow with waitFinished()/waitAllFinished(). */
+   bool beginAbort()
+   {
+      std::unique_lock<std::mutex> g(_m);
+      for (size_t i=0; i<_threads.size(); i++)
       {
-         std::unique_lock<std::mutex> g(_m);
-         for (size_t i=0; i<_threads.size(); i++)
-         {
-            const Rec & r = _threads[i];
-            if ((r.state == ST_PARKED)&&((r.park.kind == PK_LOCK))&&(ownerOtherLocked(r.park.obj, (int)i))) return false;
-         }
-         _abort = true;
-         for (size_t i=0; i<_threads.size(); i++)
-         {
-            Rec & r = _threads[i];
-            if (r.state == ST_PARKED) {r.state = ST_RUNNING; r.grantResult = ((r.park.kind == PK_WAIT)||(r.park.kind == PK_SIGWAIT)) ? 1 : 0; _running++; sem_post(&r.worker->runSem);}
-         }
+         const Rec & r = _threads[i];
+         if ((r.state == ST_PARKED)&&((r.park.kind == PK_LOCK))&&(ownerOtherLocked(r.park.obj, (int)i))) return false;
       }
+      _abort = true;
+      for (size_t i=0; i<_threads.size(); i++)
+      {
+         Rec & r = _threads[i];
+         if (r.state == ST_PARKED) {r.state = ST_RUNNING; r.grantResult = ((r.park.kind == PK_WAIT)||(r.park.kind == PK_SIGWAIT)) ? 1 : 0; _running++; sem_post(&(r.worker ? r.worker : r.own)->runSem);}
+      }
+      return true;
+   }
+
+   /** Blocks until managed thread i has finished (use after beginAbort()). */
+   void waitFinished(int i)
+   {
+      std::unique_lock<std::mutex> g(_m);
+      while((i >= 0)&&(i < (int)_threads.size())&&(_threads[i].state != ST_FINISHED)) _cv.wait(g);
+   }
+
+   /** Blocks until every managed thread has finished (use after beginAbort()). */
+   void waitAllFinished()
+   {
       std::unique_lock<std::mutex> g(_m);
       while(true)
       {
@@ -224,7 +253,6 @@ public:
          if (all) break;
          _cv.wait(g);
       }
-      return true;
    }
 
    /** True once abortAll() was called: thread bodies should stop issuing operations. */
@@ -242,6 +270,14 @@ public:
    // mutators for the user-event observer (scheduler lock already held)
    void closeSignalLocked(const void * threadObj, long side) {_sigClosed.insert(std::make_pair(threadObj, side));}
    void addPendingLocked(const void * wc, uint32_t n) {_pending[wc] += n;}
+   /** (C11) a restarted muscle Thread gets a fresh socket pair: no byte pending, nothing closed */
+   void reopenSignalLocked(const void * threadObj, long side) {_sigClosed.erase(std::make_pair(threadObj, side)); _sig[std::make_pair(threadObj, side)] = 0;}
+   /** (C11) a restarted muscle Thread is joinable again only when its NEW internal thread reaches THREAD_EXIT */
+   void clearFinishedLocked(const void * threadObj) {_finishedObjs.erase(threadObj);}
+   /** (C11) WaitForInternalThreadToExit() on a Thread that is not running returns at once: make the THREAD_JOIN park grantable */
+   void markFinishedLocked(const void * threadObj) {_finishedObjs.insert(threadObj);}
+   uint32_t signalBytes(const void * threadObj, long side) const {std::lock_guard<std::mutex> g(_m); std::map<std::pair<const void *, long>, uint32_t>::const_iterator it = _sig.find(std::make_pair(threadObj, side)); return (it == _sig.end()) ? 0 : it->second;}
+   bool signalClosed(const void * threadObj, long side) const {std::lock_guard<std::mutex> g(_m); return _sigClosed.count(std::make_pair(threadObj, side)) > 0;}
 
 private:
    enum State {ST_RUNNING, ST_PARKED, ST_FINISHED};
@@ -278,6 +314,8 @@ private:
       if (_relevant.count(obj)) return true;
       for (size_t i=0; i<_ranges.size(); i++) if (((const char *)obj >= _ranges[i].first)&&((const char *)obj < _ranges[i].second)) return true;
       if ((_allWC)&&((kind == MUSCLE_VH_WC_WAIT)||(kind == MUSCLE_VH_WC_NOTIFY))) return true;
+      if ((_allThreads)&&((kind == MUSCLE_VH_THREAD_JOIN)||(kind == MUSCLE_VH_SIG_SEND)||(kind == MUSCLE_VH_SIG_WAIT)||(kind == MUSCLE_VH_SIG_DRAIN))) return true;
+      if ((_allAtomic)&&((kind == MUSCLE_VH_ATOMIC_INC)||(kind == MUSCLE_VH_ATOMIC_DEC))) return true;
       return false;
    }
 
@@ -392,7 +430,8 @@ private:
       ParkKind pk = PK_NONE;
       switch(kind)
       {
-         case -1:                       pk = PK_YIELD;   break;
+         case -1:                       if (parks == false) return 0;   // aborting (or an unmanaged thread): an explicit yield point passes through
+                                        pk = PK_YIELD;   break;
          case MUSCLE_VH_MUTEX_LOCK:
          {
             std::pair<int,int> & o = _owners[obj];
@@ -507,6 +546,8 @@ private:
    volatile bool _abort;
    int _expectedNew;
    bool _allWC;
+   bool _allThreads;
+   bool _allAtomic;
    int _running;
    bool _parkPolicy[MUSCLE_NUM_VH_KINDS];
    UserEventFn _userEvent; void * _userArg;
